@@ -66,6 +66,26 @@ class HarnessError(Exception):
     """raised for conditions that are the harness's fault or a bound being hit - never a verdict"""
 
 
+class SimBudgetExceeded(Exception):
+    """the simulated system asked for more samples in one request than any world of the scenario families needs (a
+    runaway loop under a defective tree): ended here, deterministically, instead of by the host's memory limit - so the
+    world's outcome does not depend on how much memory the host happens to have left. Recorded as a workload exception."""
+
+    verif_passthrough = True
+
+
+SAMPLE_REQUEST_BUDGET = 1_000_000
+
+
+def check_request(n, what):
+    try:
+        n = int(n)
+    except Exception:
+        return
+    if n > SAMPLE_REQUEST_BUDGET:
+        raise SimBudgetExceeded(f"{what}: {n} samples in one request (budget {SAMPLE_REQUEST_BUDGET})")
+
+
 class World:
     def __init__(self, scenario, forced_trace=None):
         self.scenario = scenario
